@@ -342,6 +342,9 @@ impl<'a> G<'a> {
                         "{\"_sd\":[\"abc\"]}", "[{\"...\":\"x\"}]", "{\"...\":1,\"_sd_alg\":\"md5\"}", "[\"s\",\"_sd\",1]", "12345", "-7", "1e5",
                     ]))
                     .to_string())
+                } else if self.r.chance(2) {
+                    // multi-byte characters at every small byte offset, behind the usual marker characters
+                    Value::String(crate::tamper::boundary_text(self.r))
                 } else {
                     Value::String(self.string(false))
                 }
